@@ -149,13 +149,19 @@ theorem C13_log_repaired_after_restart (D : Defects) (ops : List Op) (hv : ∀ o
     LogClean (restart (run Table.ofGen D init ops).db).db :=
   restart_clean (C13_log_invariant D ops hv)
 
-/-! ### (iv) the writer is ready for the next batch — false for the code as it is -/
+/-! ### (iv) the writer is ready for the next batch — was false before the fix 6475b84 in /repo -/
 
-/-- **C13 (iv), intended behaviour.** With a ROLLBACK after a failed marks write and after a failed COMMIT
-    (`Defects.none`, the proposed fix) the connection is idle after every batch of every run. -/
+/-- **C13 (iv).** With a ROLLBACK after a failed marks write and after a failed COMMIT (`Defects.none`)
+    the connection is idle after every batch of every run. -/
 theorem C13_idle_after_every_batch (ops : List Op) (hv : ∀ op ∈ ops, op.Valid) :
     (run Table.ofGen Defects.none init ops).conn.txn = none :=
   run_idle Table.ofGen Defects.none ops init (fun op ho => allRollback_ofGen (hv op ho)) rfl (Or.inl rfl)
+
+/-- **C13 (iv) for the code as it is** (since the fix: `Defects.asImplemented = Defects.none`, which
+    `C13_table_defectsAsInSource` checks against the regenerated table on every run). -/
+theorem C13_idle_after_every_batch_asImplemented (ops : List Op) (hv : ∀ op ∈ ops, op.Valid) :
+    (run Table.ofGen Defects.asImplemented init ops).conn.txn = none :=
+  C13_idle_after_every_batch ops hv
 
 /- The two witnesses are stated for the switch itself (not for `Defects.asImplemented`), so that a fix in
    /repo only needs `Defects.asImplemented` flipped (then `C13_table_defectsAsInSource` checks again). -/
@@ -164,7 +170,8 @@ theorem C13_idle_after_every_batch (ops : List Op) (hv : ∀ op ∈ ops, op.Vali
 def witnessBatch : List Msg := [{ kind := .mutation, stmts := [.put 1 1 1] }]
 def nextBatch : List Msg := [{ kind := .write, stmts := [.aux (.conf 1)] }]
 
-/-- **C13_breaks_marksFailureLeavesTxnOpen** (DESIGN §4 site 15). The marks write of a batch fails:
+/-- **C13_breaks_marksFailureLeavesTxnOpen** (DESIGN §4 site 15; the code before the fix, and what the
+    check reports again if the ROLLBACK is removed). The marks write of a batch fails:
     the batch is answered `Err` and nothing is visible (atomicity holds), but the transaction stays
     open, and the next batch — any batch — fails at BEGIN. -/
 theorem C13_breaks_marksFailureLeavesTxnOpen :
@@ -192,12 +199,12 @@ theorem C13_wedged_until_restart (D : Defects) (s : Sys) (w : Db) (h : s.conn.tx
     simp only [run, List.foldl_cons, stepOp, processBatch_wedged Table.ofGen D s ms f h]
     exact ih fun o ho => hb o (List.mem_cons_of_mem _ ho)
 
-/-- **C13_partial.** For the code as it is: if no batch of the run suffers a failure of the marks write
-    or of COMMIT, the connection is idle after every batch. (What is missing compared with the full
-    statement: exactly those two fault points.) -/
-theorem C13_partial (ops : List Op) (hv : ∀ op ∈ ops, op.Valid) (hg : ∀ op ∈ ops, op.noLateFault) :
-    (run Table.ofGen Defects.asImplemented init ops).conn.txn = none :=
-  run_idle Table.ofGen Defects.asImplemented ops init (fun op ho => allRollback_ofGen (hv op ho)) rfl (Or.inr hg)
+/-- **C13_partial.** Whatever the two switches (in particular for the code before the fix): if no batch
+    of the run suffers a failure of the marks write or of COMMIT, the connection is idle after every
+    batch. (What is missing compared with the full statement: exactly those two fault points.) -/
+theorem C13_partial (D : Defects) (ops : List Op) (hv : ∀ op ∈ ops, op.Valid) (hg : ∀ op ∈ ops, op.noLateFault) :
+    (run Table.ofGen D init ops).conn.txn = none :=
+  run_idle Table.ofGen D ops init (fun op ho => allRollback_ofGen (hv op ho)) rfl (Or.inr hg)
 
 /-! ### why the side conditions matter: a marks write outside the transaction breaks (iii) -/
 
